@@ -39,7 +39,8 @@ from harness.core import VERIF, Ctx, enc_labels
 RULE = (
     "cases come from one SplitMix64 state: chains of 1-5 valid zone versions over <= 12 owner names (apex, wildcard, "
     "delegation + glue, mixed-case spellings, RRSIG with covers, NSEC, CNAME nodes, A<->CNAME replacements, TTL changes, "
-    "out-of-zone glue), serials from a pool around 0, 2^31 and 2^32-1 with RFC 1982 wrap-around; streams = AXFR, IXFR "
+    "out-of-zone glue), AXFR with an explicit serial= (equal to / behind / ahead of / 2^31 away from the server's, 0) and the "
+    "classic dns.zone.from_xfr(dns.query.xfr(...)) route, serials from a pool around 0, 2^31 and 2^32-1 with RFC 1982 wrap-around; streams = AXFR, IXFR "
     "(multi-step), AXFR-style answer to IXFR, up-to-date, UDP IXFR and its truncated form; every chunking of short "
     "streams, random chunkings (with empty messages) of long ones; every single fault (drop, duplicate, swap, truncate, "
     "corrupt SOA serial / owner, whole difference sequence missing, rcode, question name/type, wrong base serial, "
